@@ -18,6 +18,7 @@ func init() {
 		Explanation: "Decides the kind-order pipeline behind 'literal before interceptor before regexp before named, each alternative tried at most once, never widening an earlier capture': R1 the constant order String < Interceptor < Regexp < Named; R2 the sort key is K·kind + b with 0 ≤ b < K on every path (strictly monotone in the kind); R3 every append to a child list is followed by a stable sort of that node's child list whose comparator returns priority(a) − priority(b); R4 ordered scan — the matcher visits the first-byte index first, then children by an index that starts at len(index) and only increases by one, a failed child is left by moving to the next one; R5 the index holds literal children only and is coherent (= C03.R1/R2); R6 literal text next to a regexp parameter is quoted and the rule is enclosed in its own group (= C01.R3); R7 an alternative is given up by restoring the remaining path and falling back to the next child (= C01.R1). " +
 			"R19 (= C01.R21) no '{' in a rule; R20 (= C01.R22) end point = empty suffix. " +
 			"R21 the split point of two segment texts agrees with the reference rule (never inside a parameter, never directly behind one) for all pairs of texts — abstract interpretation of longestPrefix over the brace alphabet (DESIGN section 33). " +
+			"R22 two literal segments are compared byte for byte (the brace rules are for parameter segments); R23 (= C01.R24) no '>' in a group name. " +
 			"Not decided: shortest-capture and shared-suffix semantics of Segment.Match, and '404 exactly when the procedure finds no route' — those need an executable reference resolver (a different technique).",
 		Assumptions: commonAssumptions,
 		Run: func(c *Ctx) {
@@ -45,6 +46,8 @@ func init() {
 			ruleRuleTextHasNoBraces(c, "R19")
 			ruleEndpointIsAnEmptySuffix(c, "R20")
 			ruleSplitPointAutomaton(c, "R21")
+			ruleLiteralSegmentsSplitBytewise(c, "R22")
+			ruleGroupNameIsNotCutShort(c, "R23")
 		},
 	})
 }
